@@ -6,7 +6,7 @@
 // Input domains (derived from the function comments and from every in-tree caller, see the table
 // in reg.py / the comments at each op_* function):
 //   * results are kept <= PSTM_MAX_SIZE-2 digits so the exact result is always representable;
-//   * pstm_sub_s: |a| >= |b|, unsigned;  pstm_sqr_comba / montgomery_* / exptmod: non-negative;
+//   * pstm_sub_s: |a| >= |b|, unsigned;  montgomery_* / exptmod: non-negative operands (pstm_sqr_comba: either sign);
 //   * Montgomery functions: odd modulus >= 3, reduce input < m*R and alloc >= m.used+1;
 //   * pstm_exptmod: P odd with exactly 512/1024/1536/2048/3072/4096 bits, 0 < X < P;
 //   * pstm_mod / mulmod / invmod: modulus > 0;  invmod "must succeed" only for 0 < a < b, gcd = 1 and
@@ -15,6 +15,21 @@
 //     (the documentation only promises q*b + r = a).
 // Outside these domains an error return is accepted (and counted); a success return is still
 // compared with the exact value where the mathematical meaning is unambiguous.
+//
+// Output variables and aliasing (second tape region, see "side tape" below):
+//   * every output variable of every operation is, besides the fresh states, pre-loaded with a generated value whose digit
+//     count is chosen RELATIVE to the exact result (shorter / equal / just longer / much longer) and whose sign is generated
+//     ("dirty output"); the result must not depend on it (value, sign, digits above 'used').  Counters out:<op>:<rel>[:neg].
+//     Exception pstm_sub_s ("unsigned subtraction", alias s_pstm_sub): only the magnitude is defined, the sign field is
+//     the business of its callers pstm_add/pstm_sub.
+//   * the output is aliased with each input in turn.  Patterns that an in-tree caller uses or that were already
+//     enforced (and hold) are checked against the oracle; patterns that no in-tree caller uses and the headers do not promise
+//     are executed (memory safety under ASan) and only COUNTED as unpromised:<op>:<pattern>:ok|wrong|error:
+//       exptmod Y==X (wrong on the constant-time path: X is overwritten before it is read) and Y==P (ok),
+//       mulmod d==c, invmod c==b, div (c==NULL,d==a) (c==NULL,d==b) (c==b,d==a),
+//       montgomery_calc_normalization a==b, montgomery_reduce a==m.
+//     In-tree use of pstm_exptmod: rsa.c Y==G (public/private, non-CRT) and fresh tmpa/tmpb (CRT); dh_gen_key.c fresh
+//     key->pub; dh_gen_secret.c a variable that holds pub+1 from the range check (a dirty, positive output).
 #include "vf.h"
 #include <gmp.h>
 #include <string>
@@ -315,6 +330,61 @@ static void mk_out(P &p, Tape &t, bool allow_neg) {
     mk(p, g, allow_neg && t.coin(), (unsigned) t.below(3));
 }
 
+// Side tape: bytes [SIDE_OFF, TAPE_LEN) of the case tape drive the state of the primary output variable and the additional
+// aliasing patterns.  They are a separate region so that the operand generators above keep their byte positions (older
+// regression tapes are <= SIDE_OFF bytes: an exhausted side tape yields zeros = the legacy choices).
+static const size_t SIDE_OFF = 1024;
+static Tape *g_side = NULL;
+static inline Tape &side() { return *g_side; }
+static int g_prev_neg = -1; // sign the primary output variable had before the call (-1: unknown)
+struct OutRec { bool tracked = false; int used = 0; int neg = 0; };
+static int znd(const mpz_t z) { return mpz_sgn(z) == 0 ? 0 : (int) ((mpz_sizeinbase(z, 2) + 63) / 64); }
+// primary output variable: legacy states (2/8, drawn from the main tape) or a value sized relative to the exact result
+static OutRec mk_outv(P &p, Tape &t, bool legacy_neg, bool allow_neg, int res_nd) {
+    Tape &s = side();
+    OutRec r; r.tracked = true;
+    unsigned sel = (unsigned) s.below(8);
+    if (sel < 2) mk_out(p, t, legacy_neg);
+    else {
+        int rn = imax(res_nd, 0), nd;
+        switch (sel) {
+        case 2: nd = rn > 0 ? (int) s.below((uint64_t) rn) : 0; break;                       // any shorter
+        case 3: nd = rn; break;                                                             // equal
+        case 4: nd = rn + 1 + (int) s.below(3); break;                                       // just longer
+        case 5: nd = rn + 1 + (int) s.below(40); break;                                      // longer
+        case 6: nd = rn - 1 + (int) s.below(3); break;                                       // around
+        default: nd = rn > 1 ? rn - 1 - (int) s.below((uint64_t) imin(rn - 1, 3)) : rn + 2; break; // just shorter
+        }
+        if (nd < 0) nd = 0;
+        if (nd > LIM) nd = LIM;
+        unsigned vs = (unsigned) s.below(4);
+        Mag g;
+        if (vs == 2) g.assign((size_t) nd, ~0ULL);
+        else if (vs == 3) { g.assign((size_t) nd, 0); if (nd) g[nd - 1] = 1ULL << 63; }
+        else g = cheap_mag(s, nd);
+        bool neg = (s.u8() & 1) && allow_neg;
+        mk(p, g, neg, (unsigned) s.below(5));
+    }
+    r.used = p.v.used; r.neg = p.v.sign == PSTM_NEG;
+    g_prev_neg = r.neg;
+    return r;
+}
+static void book_out(Ctx &c, const std::string &op, const OutRec &r, const pstm_int *res) {
+    if (!r.tracked) return;
+    const char *rel = r.used == 0 ? "zero" : r.used < res->used ? "shorter" : r.used == res->used ? "equal" : "longer";
+    c.count("out:" + op + ":" + rel + (r.neg ? ":neg" : ""));
+    c.count(std::string("outstate:") + rel);
+    if (r.neg) c.count("outstate:negative");
+    g_prev_neg = -1;
+}
+// an aliasing pattern that no in-tree caller uses and the API does not promise: executed, compared, only counted
+static void unpromised(Ctx &c, const std::string &op, const char *pattern, int32_t rc, const pstm_int *got, const mpz_t want) {
+    std::string k = "unpromised:" + op + ":" + pattern + ":";
+    if (rc != PSTM_OKAY) { c.count(k + "error"); return; }
+    Z g; z_from_p(g.v, got);
+    c.count(k + (mpz_cmp(g.v, want) == 0 ? "ok" : "wrong"));
+}
+
 // ------------------------------------------------------------------ checks
 static void inv(Ctx &c, const pstm_int *p, const Case &cs, const char *which) {
     VF_CHECK(p->dp != NULL, cs.op + "-invariant", "%s: %s has NULL dp", descr(cs).c_str(), which);
@@ -330,8 +400,12 @@ static void expect(Ctx &c, const pstm_int *r, const mpz_t want, const Case &cs, 
     inv(c, r, cs, which);
     Z got;
     z_from_p(got.v, r);
-    if (mpz_cmp(got.v, want) != 0)
+    if (mpz_cmp(got.v, want) != 0) {
+        // right magnitude, and the sign is the one the output variable held before the call: the sign field was not written
+        if (mpz_cmpabs(got.v, want) == 0 && g_prev_neg == (r->sign == PSTM_NEG))
+            VF_FAIL("stale-sign:" + cs.op, "%s: %s has the right magnitude but kept the sign the output variable had before the call: got=%s want=%s", descr(cs).c_str(), which, zhex(got.v).c_str(), zhex(want).c_str());
         VF_FAIL(cs.op + "-mismatch", "%s: %s got=%s want=%s", descr(cs).c_str(), which, zhex(got.v).c_str(), zhex(want).c_str());
+    }
 }
 static void unchanged(Ctx &c, const pstm_int *p, const Mag &m, int neg, const Case &cs, const char *which) {
     inv(c, p, cs, which);
@@ -474,21 +548,24 @@ static void op_addsub(Tape &t, Ctx &c, int kind) {
     mk(pa, A, cs.sa, am);
     pstm_int *a = &pa.v, *b = a, *o;
     if (!(cs.alias == AL_AB || cs.alias == AL_ALL)) { mk(pb, B, cs.sb, bm); b = &pb.v; }
-    if (cs.alias == AL_CA || cs.alias == AL_ALL) o = a;
-    else if (cs.alias == AL_CB) o = b;
-    else { mk_out(pc, t, kind != 2); o = &pc.v; }
-    book(c, cs);
     Z za, zb, want;
     z_from_mag(za.v, A, cs.sa); z_from_mag(zb.v, B, cs.sb);
+    if (kind == 0) mpz_add(want.v, za.v, zb.v); else mpz_sub(want.v, za.v, zb.v);
+    OutRec orec;
+    if (cs.alias == AL_CA || cs.alias == AL_ALL) o = a;
+    else if (cs.alias == AL_CB) o = b;
+    else { orec = mk_outv(pc, t, kind != 2, true, znd(want.v)); o = &pc.v; }
+    book(c, cs);
     int32_t rc;
-    if (kind == 0) { mpz_add(want.v, za.v, zb.v); rc = pstm_add(a, b, o); }
-    else { mpz_sub(want.v, za.v, zb.v); rc = kind == 1 ? pstm_sub(a, b, o) : pstm_sub_s(a, b, o); }
+    if (kind == 0) rc = pstm_add(a, b, o);
+    else rc = kind == 1 ? pstm_sub(a, b, o) : pstm_sub_s(a, b, o);
     okay(rc, cs);
     if (kind == 2) { // unsigned: only the magnitude is defined, the sign field of c is not written
         inv(c, o, cs, "result");
         Z got; mpz_import(got.v, o->used, -1, 8, 0, 0, o->dp);
         if (mpz_cmp(got.v, want.v) != 0) VF_FAIL("sub_s-mismatch", "%s: got=%s want=%s", descr(cs).c_str(), zhex(got.v).c_str(), zhex(want.v).c_str());
     } else expect(c, o, want.v, cs);
+    book_out(c, cs.op, orec, o);
     if (o != a) unchanged(c, a, A, cs.sa, cs, "a");
     if (o != b && b != a) unchanged(c, b, B, cs.sb, cs, "b");
     // algebraic second net (no GMP): (a+b)-b == a, (a-b)+b == a
@@ -518,25 +595,28 @@ static void op_digit(Tape &t, Ctx &c, int kind) {
     P pa, pc;
     mk(pa, A, cs.sa, (unsigned) t.below(5));
     pstm_int *a = &pa.v, *o = a;
-    if (cs.alias == AL_NONE) { mk_out(pc, t, true); o = &pc.v; }
-    book(c, cs);
     Z za, zd, want;
     z_from_mag(za.v, A, cs.sa);
     mpz_import(zd.v, 1, -1, 8, 0, 0, &d);
+    if (kind == 0) mpz_add(want.v, za.v, zd.v); else if (kind == 1) mpz_sub(want.v, za.v, zd.v); else mpz_mul(want.v, za.v, zd.v);
+    OutRec orec;
+    if (cs.alias == AL_NONE) { orec = mk_outv(pc, t, true, true, znd(want.v)); o = &pc.v; }
+    book(c, cs);
     int32_t rc;
-    if (kind == 0) { mpz_add(want.v, za.v, zd.v); rc = pstm_add_d(NULL, a, d, o); }
-    else if (kind == 1) { mpz_sub(want.v, za.v, zd.v); rc = pstm_sub_d(NULL, a, d, o); }
-    else { mpz_mul(want.v, za.v, zd.v); rc = pstm_mul_d(a, d, o); }
+    if (kind == 0) rc = pstm_add_d(NULL, a, d, o);
+    else if (kind == 1) rc = pstm_sub_d(NULL, a, d, o);
+    else rc = pstm_mul_d(a, d, o);
     okay(rc, cs);
     expect(c, o, want.v, cs);
+    book_out(c, cs.op, orec, o);
     if (o != a) unchanged(c, a, A, cs.sa, cs, "a");
     poke(t, c, o, cs);
 }
 
 // ------------------------------------------------------------------ mul_comba / sqr_comba
 // In-tree: ecc_math.c (C=A, C=B, separate, paD of (2*modulus.used+1) digits), rsa.c:293 (C=A, paD NULL), mulmod (paD NULL),
-// exptmod.  Signs: C.sign = A.sign ^ B.sign.  sqr_comba does not write the sign: callers only square non-negative values
-// into non-negative variables.
+// exptmod.  Signs: C.sign = A.sign ^ B.sign.  A square is non-negative (the unrolled 16/32-digit squarers set the sign; the
+// generic squarer did not write it at all: findings/stale-sign-sqr_comba.md), whatever the output variable held before.
 static void op_mul(Tape &t, Ctx &c, bool sqr) {
     Case cs;
     cs.op = sqr ? "sqr_comba" : "mul_comba";
@@ -556,16 +636,20 @@ static void op_mul(Tape &t, Ctx &c, bool sqr) {
     } else {
         B = A;
         cs.alias = t.below(3) == 0 ? AL_CA : AL_NONE;
+        // (-a)^2: the unrolled 16/32-digit squarers set the sign of the result explicitly, i.e. a negative operand is accepted
+        cs.sa = m > 0 && side().below(5) == 1;
     }
     cs.m = m; cs.n = n;
     int pa_digits = (int) A.size() + (int) B.size();
     P pa, pb, pc;
     mk(pa, A, cs.sa, (unsigned) t.below(5));
     pstm_int *a = &pa.v, *b = a, *o;
+    OutRec orec;
     if (!sqr && !(cs.alias == AL_AB || cs.alias == AL_ALL)) { mk(pb, B, cs.sb, (unsigned) t.below(5)); b = &pb.v; }
     if (cs.alias == AL_CA || cs.alias == AL_ALL) o = a;
     else if (cs.alias == AL_CB) o = b;
-    else { mk_out(pc, t, !sqr); o = &pc.v; }
+    else { Z w; z_from_mag(w.v, A, 0); Z w2; z_from_mag(w2.v, B, 0); mpz_mul(w.v, w.v, w2.v); orec = mk_outv(pc, t, !sqr, true, znd(w.v)); o = &pc.v; }
+    if (sqr && o == a) g_prev_neg = cs.sa;
     // scratch buffer the way callers pass it: none, exactly big enough, bigger, or too small (fallback to malloc)
     unsigned pm = (unsigned) t.below(4);
     std::vector<pstm_digit> pad;
@@ -583,6 +667,7 @@ static void op_mul(Tape &t, Ctx &c, bool sqr) {
     int32_t rc = sqr ? pstm_sqr_comba(NULL, a, o, paD, paDlen) : pstm_mul_comba(NULL, a, b, o, paD, paDlen);
     okay(rc, cs);
     expect(c, o, want.v, cs);
+    book_out(c, cs.op, orec, o);
     if (o != a) unchanged(c, a, A, cs.sa, cs, "a");
     if (!sqr && o != b && b != a) unchanged(c, b, B, cs.sb, cs, "b");
     // second net: sqr(a) == mul(a,a); mul(a,b) == mul(b,a)
@@ -610,19 +695,21 @@ static void op_shift1(Tape &t, Ctx &c, bool mul) {
     P pa, pc;
     mk(pa, A, cs.sa, (unsigned) t.below(5));
     pstm_int *a = &pa.v, *o = a;
-    if (cs.alias == AL_NONE) { mk_out(pc, t, true); o = &pc.v; }
-    book(c, cs);
     Z za, want, want2;
     z_from_mag(za.v, A, cs.sa);
+    if (mul) mpz_mul_2exp(want.v, za.v, 1); else { mpz_tdiv_q_2exp(want.v, za.v, 1); mpz_fdiv_q_2exp(want2.v, za.v, 1); }
+    OutRec orec;
+    if (cs.alias == AL_NONE) { orec = mk_outv(pc, t, true, true, znd(want.v)); o = &pc.v; }
+    book(c, cs);
     int32_t rc;
-    if (mul) { mpz_mul_2exp(want.v, za.v, 1); rc = pstm_mul_2(a, o); okay(rc, cs); expect(c, o, want.v, cs); }
+    if (mul) { rc = pstm_mul_2(a, o); okay(rc, cs); expect(c, o, want.v, cs); }
     else {
-        mpz_tdiv_q_2exp(want.v, za.v, 1); mpz_fdiv_q_2exp(want2.v, za.v, 1);
         rc = pstm_div_2(a, o); okay(rc, cs);
         Z got; inv(c, o, cs, "result"); z_from_p(got.v, o);
         if (mpz_cmp(got.v, want.v) != 0 && mpz_cmp(got.v, want2.v) != 0)
             VF_FAIL("div_2-mismatch", "%s: got=%s want=%s", descr(cs).c_str(), zhex(got.v).c_str(), zhex(want.v).c_str());
     }
+    book_out(c, cs.op, orec, o);
     if (o != a) unchanged(c, a, A, cs.sa, cs, "a");
     if (mul && o != a && t.below(4) == 0) { // mul_2(a) == a + a, div_2(mul_2(a)) == a
         P s, h; mk_out(s, t, true); mk_out(h, t, true);
@@ -649,21 +736,27 @@ static void op_div_2d(Tape &t, Ctx &c) {
     // therefore only requested for b < DIGIT_BIT, i.e. inside the range where the expression is defined.
     // With c == a the remainder is computed from the already shifted value (same finding).  The remainder is thus only
     // requested with a separate quotient variable and b < DIGIT_BIT.
-    if (am == 2) am = 0;
-    if (bits >= 64 && (am == 4 || am == 5)) am = 3;
+    // /repo commit 7525ffd repaired both (remainder taken before the shift, mask for any bit count): with a non-zero side
+    // tape byte the remainder is requested for every shift count and with c == a as well.
+    bool lifted = side().below(4) != 0;
+    if (!lifted) {
+        if (am == 2) am = 0;
+        if (bits >= 64 && (am == 4 || am == 5)) am = 3;
+    } else c.count(fmt("div_2d:lifted-mode:%u%s", am, bits >= 64 ? ":bits>=64" : ""));
     cs.alias = am <= 2 ? AL_CA : am == 5 ? AL_OTHER : AL_NONE;
     cs.extra = fmt("bits=%d mode=%u", bits, am);
     P pa, pc, pd;
     mk(pa, A, cs.sa, (unsigned) t.below(5));
     pstm_int *a = &pa.v, *q = a, *r = NULL;
-    if (am >= 3) { mk_out(pc, t, true); q = &pc.v; }
-    if (am == 2 || am == 4) { mk_out(pd, t, true); r = &pd.v; }
-    if (am == 5) r = a;
-    book(c, cs);
     Z za, tq, tr, fq, fr;
     z_from_mag(za.v, A, cs.sa);
     mpz_tdiv_q_2exp(tq.v, za.v, bits); mpz_tdiv_r_2exp(tr.v, za.v, bits);
     mpz_fdiv_q_2exp(fq.v, za.v, bits); mpz_fdiv_r_2exp(fr.v, za.v, bits);
+    OutRec orec, orec2;
+    if (am >= 3) { orec = mk_outv(pc, t, true, true, znd(tq.v)); q = &pc.v; }
+    if (am == 2 || am == 4) { orec2 = mk_outv(pd, t, true, true, znd(tr.v)); r = &pd.v; }
+    if (am == 5) r = a;
+    book(c, cs);
     int32_t rc = pstm_div_2d(NULL, a, (int16_t) bits, q, r);
     okay(rc, cs);
     inv(c, q, cs, "quotient");
@@ -677,6 +770,8 @@ static void op_div_2d(Tape &t, Ctx &c) {
     }
     if (!tok && !fok)
         VF_FAIL("div_2d-mismatch", "%s: q=%s r=%s want q=%s r=%s", descr(cs).c_str(), zhex(gq.v).c_str(), r ? zhex(gr.v).c_str() : "-", zhex(tq.v).c_str(), zhex(tr.v).c_str());
+    book_out(c, cs.op, orec, q);
+    if (r) book_out(c, "div_2d.rem", orec2, r);
     if (q != a && r != a) unchanged(c, a, A, cs.sa, cs, "a");
     poke(t, c, q, cs);
 }
@@ -699,14 +794,32 @@ static void op_div(Tape &t, Ctx &c) {
     cs.sa = m > 0 && t.below(6) == 0;
     cs.sb = t.below(6) == 0;
     unsigned am = (unsigned) t.below(8); // 0: c,d separate 1: c only 2: d only 3: c=a 4: d=a 5: d=b 6: c=b 7: c=a,d=b
+    // remaining ways of aliasing an output with an input; no caller uses them (pstm_mod passes c == NULL and a local d): counted only
+    unsigned xm = (unsigned) side().below(8); // 1: c NULL,d=a  2: c NULL,d=b  3: c=b,d=a
+    if (xm >= 1 && xm <= 3) am = 7 + xm;
     cs.alias = am <= 2 ? AL_NONE : (am == 3 || am == 7) ? AL_CA : am == 6 ? AL_CB : AL_OTHER;
     cs.extra = fmt("mode=%u", am);
     P pa, pb, pc, pd;
     mk(pa, A, cs.sa, (unsigned) t.below(5));
     mk(pb, B, cs.sb, (unsigned) t.below(5));
     pstm_int *a = &pa.v, *b = &pb.v, *q = NULL, *r = NULL;
-    if (am == 0 || am == 1 || am == 4 || am == 5) { mk_out(pc, t, true); q = &pc.v; }
-    if (am == 0 || am == 2 || am == 3 || am == 6) { mk_out(pd, t, true); r = &pd.v; }
+    Z za, zb, tq, tr, fq, fr, gq, gr;
+    z_from_mag(za.v, A, cs.sa); z_from_mag(zb.v, B, cs.sb);
+    mpz_tdiv_qr(tq.v, tr.v, za.v, zb.v);
+    mpz_fdiv_qr(fq.v, fr.v, za.v, zb.v);
+    OutRec orec, orec2;
+    if (am == 0 || am == 1 || am == 4 || am == 5) { orec = mk_outv(pc, t, true, true, znd(tq.v)); q = &pc.v; }
+    if (am == 0 || am == 2 || am == 3 || am == 6) { orec2 = mk_outv(pd, t, true, true, znd(tr.v)); r = &pd.v; }
+    if (am >= 8) {
+        if (am == 8) r = a; else if (am == 9) r = b; else { q = b; r = a; }
+        book(c, cs);
+        int32_t rc = pstm_div(NULL, a, b, q, r);
+        static const char *pn[3] = { "c=NULL,d=a", "c=NULL,d=b", "c=b,d=a" };
+        bool tneg = mpz_sgn(za.v) < 0 || mpz_sgn(zb.v) < 0; // both rounding conventions are acceptable for negative operands
+        Z g; if (rc == PSTM_OKAY) z_from_p(g.v, r);
+        unpromised(c, cs.op, pn[am - 8], rc, r, tneg && rc == PSTM_OKAY && mpz_cmp(g.v, fr.v) == 0 ? fr.v : tr.v);
+        return;
+    }
     if (am == 1) r = NULL;
     if (am == 2) q = NULL;
     if (am == 3) q = a;
@@ -715,10 +828,6 @@ static void op_div(Tape &t, Ctx &c) {
     if (am == 6) q = b;
     if (am == 7) { q = a; r = b; }
     book(c, cs);
-    Z za, zb, tq, tr, fq, fr, gq, gr;
-    z_from_mag(za.v, A, cs.sa); z_from_mag(zb.v, B, cs.sb);
-    mpz_tdiv_qr(tq.v, tr.v, za.v, zb.v);
-    mpz_fdiv_qr(fq.v, fr.v, za.v, zb.v);
     int32_t rc = pstm_div(NULL, a, b, q, r);
     okay(rc, cs);
     bool tok = true, fok = true;
@@ -726,6 +835,8 @@ static void op_div(Tape &t, Ctx &c) {
     if (r) { inv(c, r, cs, "remainder"); z_from_p(gr.v, r); tok = tok && mpz_cmp(gr.v, tr.v) == 0; fok = fok && mpz_cmp(gr.v, fr.v) == 0; }
     if (!tok && !fok)
         VF_FAIL("div-mismatch", "%s: q=%s r=%s want q=%s r=%s", descr(cs).c_str(), q ? zhex(gq.v).c_str() : "-", r ? zhex(gr.v).c_str() : "-", zhex(tq.v).c_str(), zhex(tr.v).c_str());
+    if (q) book_out(c, cs.op, orec, q);
+    if (r) book_out(c, "div.rem", orec2, r);
     if (q != a && r != a) unchanged(c, a, A, cs.sa, cs, "a");
     if (q != b && r != b) unchanged(c, b, B, cs.sb, cs, "b");
     // second net without GMP: q*b + r == a and |r| < |b|
@@ -761,14 +872,16 @@ static void op_mod(Tape &t, Ctx &c) {
     mk(pa, A, cs.sa, (unsigned) t.below(5));
     mk(pb, B, 0, (unsigned) t.below(5));
     pstm_int *a = &pa.v, *b = &pb.v, *o;
-    if (cs.alias == AL_CA) o = a; else if (cs.alias == AL_CB) o = b; else { mk_out(pc, t, true); o = &pc.v; }
-    book(c, cs);
     Z za, zb, want;
     z_from_mag(za.v, A, cs.sa); z_from_mag(zb.v, B, 0);
     mpz_mod(want.v, za.v, zb.v);
+    OutRec orec;
+    if (cs.alias == AL_CA) o = a; else if (cs.alias == AL_CB) o = b; else { orec = mk_outv(pc, t, true, true, znd(want.v)); o = &pc.v; }
+    book(c, cs);
     int32_t rc = pstm_mod(NULL, a, b, o);
     okay(rc, cs);
     expect(c, o, want.v, cs);
+    book_out(c, cs.op, orec, o);
     if (o != a) unchanged(c, a, A, cs.sa, cs, "a");
     if (o != b) unchanged(c, b, B, 0, cs, "b");
     poke(t, c, o, cs);
@@ -799,11 +912,19 @@ static void op_mulmod(Tape &t, Ctx &c) {
     pstm_int *a = &pa.v, *b = a, *o;
     if (!(cs.alias == AL_AB || cs.alias == AL_ALL)) { mk(pb, B, cs.sb, (unsigned) t.below(5)); b = &pb.v; }
     mk(pm, M, 0, (unsigned) t.below(5));
-    if (cs.alias == AL_CA || cs.alias == AL_ALL) o = a; else if (cs.alias == AL_CB) o = b; else { mk_out(pd, t, true); o = &pd.v; }
-    book(c, cs);
     Z za, zb, zm, want;
     z_from_mag(za.v, A, cs.sa); z_from_mag(zb.v, B, cs.sb); z_from_mag(zm.v, M, 0);
     mpz_mul(want.v, za.v, zb.v); mpz_mod(want.v, want.v, zm.v);
+    OutRec orec;
+    if (cs.alias == AL_NONE && side().below(8) == 1) { // d == c (result into the modulus variable): no in-tree caller, counted only
+        cs.alias = AL_OTHER; cs.extra += " d=c";
+        book(c, cs);
+        int32_t rc = pstm_mulmod(NULL, a, b, &pm.v, &pm.v);
+        unpromised(c, cs.op, "d=c", rc, &pm.v, want.v);
+        return;
+    }
+    if (cs.alias == AL_CA || cs.alias == AL_ALL) o = a; else if (cs.alias == AL_CB) o = b; else { orec = mk_outv(pd, t, true, true, znd(want.v)); o = &pd.v; }
+    book(c, cs);
     // second net first (needs the unmodified inputs): mod(mul_comba(a,b), m)
     P x, y; bool second = t.below(3) == 0;
     if (second) {
@@ -813,6 +934,7 @@ static void op_mulmod(Tape &t, Ctx &c) {
     int32_t rc = pstm_mulmod(NULL, a, b, &pm.v, o);
     okay(rc, cs);
     expect(c, o, want.v, cs);
+    book_out(c, cs.op, orec, o);
     if (second) { VF_CHECK(pstm_cmp(&y.v, o) == PSTM_EQ, "algebra-mulmod-vs-mul-mod", "%s: mulmod != mod(mul)", descr(cs).c_str()); c.count("algebra:mulmod"); }
     if (o != a) unchanged(c, a, A, cs.sa, cs, "a");
     if (o != b && b != a) unchanged(c, b, B, cs.sb, cs, "b");
@@ -847,11 +969,20 @@ static void op_invmod(Tape &t, Ctx &c) {
     mk(pa, A, cs.sa, (unsigned) t.below(5));
     mk(pm, M, 0, (unsigned) t.below(5));
     pstm_int *a = &pa.v, *o = a;
-    if (cs.alias == AL_NONE) { mk_out(pc, t, true); o = &pc.v; }
-    book(c, cs);
     mpz_gcd(g.v, za.v, zm.v);
     bool invertible = mpz_cmp_ui(g.v, 1) == 0;
     bool indomain = !wild && m > 0 && mpz_sizeinbase(za.v, 2) + mpz_sizeinbase(zm.v, 2) <= 4096;
+    if (invertible) mpz_invert(want.v, za.v, zm.v);
+    OutRec orec;
+    if (cs.alias == AL_NONE && indomain && invertible && side().below(8) == 1) { // c == b (inverse into the modulus variable): no in-tree caller, counted only
+        cs.alias = AL_OTHER; cs.extra += " c=b";
+        book(c, cs);
+        int32_t rc = pstm_invmod(NULL, a, &pm.v, &pm.v);
+        unpromised(c, cs.op, "c=b", rc, &pm.v, want.v);
+        return;
+    }
+    if (cs.alias == AL_NONE) { orec = mk_outv(pc, t, true, true, invertible ? znd(want.v) : k); o = &pc.v; }
+    book(c, cs);
     c.count(invertible ? "invmod:invertible" : "invmod:non-invertible");
     c.count((M[0] & 1) ? "invmod:odd-modulus" : "invmod:even-modulus");
     int32_t rc = pstm_invmod(NULL, a, &pm.v, o);
@@ -862,6 +993,7 @@ static void op_invmod(Tape &t, Ctx &c) {
         return;
     }
     inv(c, o, cs, "result");
+    book_out(c, cs.op, orec, o);
     { Z red; mpz_mod(red.v, za.v, zm.v); // 1/0 (also a multiple of b): outside every caller's domain (callers check for zero)
       if (mpz_sgn(red.v) == 0) { c.count("invmod:zero-operand-ok"); return; } }
     VF_CHECK(invertible, "invmod-accepted-noninvertible", "%s: returned success although gcd(a,b)=%s", descr(cs).c_str(), zhex(g.v).c_str());
@@ -963,16 +1095,31 @@ static void op_exptmod(Tape &t, Ctx &c) {
     Mag X = mag_from_z(zx.v);
     cs.m = (int) G.size(); cs.n = (int) X.size(); cs.k = (int) Pm.size();
     cs.alias = t.below(2) ? AL_CA : AL_NONE; // Y = G as in rsa.c
+    // output aliasing, all of it: 0,1: as drawn above (Y == G or separate)  2: Y == X  3: Y == P  4: Y == G  5-7: separate.
+    // Y == X and Y == P: no in-tree caller, not documented -> counted only (unpromised:exptmod:...).
+    unsigned ym = (unsigned) side().below(8);
+    if (ym == 4) cs.alias = AL_CA; else if (ym >= 5) cs.alias = AL_NONE; else if (ym >= 2) cs.alias = AL_OTHER;
     cs.edge = true;
     cs.extra += fmt(" bits=%d", bits);
+    if (cs.alias == AL_OTHER) cs.extra += ym == 2 ? " Y=X" : " Y=P";
     P g, x, p, y;
     mk(g, G, 0, (unsigned) t.below(5)); mk(x, X, 0, (unsigned) t.below(5)); mk(p, Pm, 0, (unsigned) t.below(5));
     pstm_int *o = &g.v;
-    if (cs.alias == AL_NONE) { mk_out(y, t, false); o = &y.v; }
+    bool indomain = kind <= 3 && mpz_sgn(zx.v) > 0;
+    if (indomain) mpz_powm(want.v, zg.v, zx.v, zp.v);
+    OutRec orec;
+    // Y separate: fresh (rsa.c CRT, dh_gen_key.c) or holding an older value (dh_gen_secret.c: pub+1); the old value may be of
+    // either sign - the result of an exponentiation of non-negative operands is non-negative whatever Y held before
+    if (cs.alias == AL_NONE) { orec = mk_outv(y, t, false, true, indomain ? znd(want.v) : nd); o = &y.v; }
+    else if (cs.alias == AL_OTHER) o = ym == 2 ? &x.v : &p.v;
     book(c, cs);
     c.count(fmt("exptmod:bits=%d", bits));
+    c.count(std::string("exptmod:Y=") + (cs.alias == AL_CA ? "G" : cs.alias == AL_NONE ? "separate" : ym == 2 ? "X" : "P"));
     int32_t rc = pstm_exptmod(NULL, &g.v, &x.v, &p.v, o);
-    bool indomain = kind <= 3 && mpz_sgn(zx.v) > 0;
+    if (cs.alias == AL_OTHER) {
+        if (indomain) unpromised(c, cs.op, ym == 2 ? "Y=X" : "Y=P", rc, o, want.v);
+        return;
+    }
     if (!indomain) { // error accepted; a success return is still compared with the exact value when that is well defined
         c.count(kind == 4 ? "exptmod:even-modulus" : kind == 5 ? "exptmod:bad-size" : "exptmod:zero-exponent");
         if (rc != PSTM_OKAY) { c.count("exptmod:error-outside-domain"); return; }
@@ -980,6 +1127,7 @@ static void op_exptmod(Tape &t, Ctx &c) {
     } else okay(rc, cs);
     mpz_powm(want.v, zg.v, zx.v, zp.v);
     expect(c, o, want.v, cs);
+    book_out(c, cs.op, orec, o);
     if (o != &g.v) unchanged(c, &g.v, G, 0, cs, "G");
     unchanged(c, &x.v, X, 0, cs, "X");
     unchanged(c, &p.v, Pm, 0, cs, "P");
@@ -1007,14 +1155,20 @@ static void op_shiftd(Tape &t, Ctx &c, int kind) {
     Case cs;
     cs.op = kind == 0 ? "lshd" : kind == 1 ? "rshd" : "2expt";
     if (kind == 2) {
-        P a; mk_out(a, t, true);
+        // the output state is drawn before the bit count on the main tape (legacy order); sized relative to the result it is
+        // drawn from the side tape after the bit count is known
+        P a; OutRec orec;
+        bool newout = side().below(4) != 0;
+        if (!newout) mk_out(a, t, true);
         unsigned bs = (unsigned) t.below(4);
         int b = bs == 0 ? (int) t.below(35 * 64) : bs == 1 ? 64 * (int) t.below(LIM) : bs == 2 ? 64 * (int) t.below(LIM) + 63 : (int) t.below((uint64_t) LIM * 64);
+        if (newout) orec = mk_outv(a, t, true, true, b / 64 + 1);
         cs.m = b / 64 + 1; cs.edge = bs == 1 || bs == 2; cs.extra = fmt("b=%d", b);
         book(c, cs);
         Z want; mpz_set_ui(want.v, 1); mpz_mul_2exp(want.v, want.v, b);
         okay(pstm_2expt(&a.v, (int16_t) b), cs);
         expect(c, &a.v, want.v, cs);
+        book_out(c, cs.op, orec, &a.v);
         poke(t, c, &a.v, cs);
         return;
     }
@@ -1131,11 +1285,19 @@ static void op_mont(Tape &t, Ctx &c) {
     VF_CHECK((pstm_digit) (mp * M[0]) == ~(pstm_digit) 0, "montgomery_setup-mismatch", "%s: rho=%llx m0=%llx: rho*m0 != -1 mod 2^64", descr(cs).c_str(), (unsigned long long) mp, (unsigned long long) M[0]);
     // R mod m
     mpz_set_ui(zr.v, 1); mpz_mul_2exp(zr.v, zr.v, 64 * (unsigned long) k);
-    { P nrm; mk_out(nrm, t, true);
-      okay(pstm_montgomery_calc_normalization(&nrm.v, &pm.v), cs, "calc_normalization");
+    { P nrm;
       mpz_mod(want.v, zr.v, zm.v);
+      OutRec orec = mk_outv(nrm, t, true, true, znd(want.v));
+      okay(pstm_montgomery_calc_normalization(&nrm.v, &pm.v), cs, "calc_normalization");
       Case c2 = cs; c2.op = "montgomery_calc_normalization";
-      expect(c, &nrm.v, want.v, c2); }
+      expect(c, &nrm.v, want.v, c2);
+      book_out(c, c2.op, orec, &nrm.v); }
+    unsigned xal = (unsigned) side().below(16); // 1: calc_normalization(a == b)  2: reduce(a == m): meaningless uses, counted only
+    if (xal == 1 || xal == 2) {
+        P mm; mk(mm, M, 0, 1); // alloc = used + 1: what pstm_montgomery_reduce needs of its in/out argument
+        if (xal == 1) { int32_t r2 = pstm_montgomery_calc_normalization(&mm.v, &mm.v); unpromised(c, "montgomery_calc_normalization", "a=b", r2, &mm.v, want.v); }
+        else { Z zero; int32_t r2 = pstm_montgomery_reduce(NULL, &mm.v, &mm.v, mp, NULL, 0); unpromised(c, "montgomery_reduce", "a=m", r2, &mm.v, zero.v); }
+    }
     VF_CHECK(mpz_invert(rinv.v, zr.v, zm.v) != 0, "harness-bug", "R not invertible mod odd m");
     // scratch buffer
     unsigned pmode = (unsigned) t.below(4);
@@ -1146,9 +1308,13 @@ static void op_mont(Tape &t, Ctx &c) {
     pstm_digit *paD = pmode ? pad.data() : NULL; psSize_t paDlen = (psSize_t) (pad.size() * 8);
     c.count(fmt("montgomery:paD-mode:%u", pmode));
     // the value to reduce, in a variable of at least k+1 digits
-    P T;
-    { Mag z; int al = imax(k + 1, (int) t.below(3) == 0 ? 2 * k + 1 : k + 1 + (int) t.below(4));
+    P T; OutRec trec;
+    // T: fresh with a caller-like allocation, or (product/square variants) a variable that held another value before; the
+    // squarer's sign handling is examined in op_mul, so a negative old value is only used in front of the multiplier
+    bool dirtyT = (variant <= 5 || variant == 7) && side().below(4) >= 2;
+    if (!dirtyT) { Mag z; int al = imax(k + 1, (int) t.below(3) == 0 ? 2 * k + 1 : k + 1 + (int) t.below(4));
       VF_CHECK(pstm_init_size(NULL, &T.v, (psSize_t) imin(al, MAXD)) == PSTM_OKAY, "harness-init", "init T"); T.live = true; }
+    else { Z pr; mpz_mul(pr.v, zx.v, (variant <= 3 || variant == 7) ? zy.v : zx.v); trec = mk_outv(T, t, false, variant <= 3 || variant == 7, znd(pr.v)); }
     if (variant <= 3 || variant == 7) {
         P x, y; mk(x, X, 0, (unsigned) t.below(5)); mk(y, Y, 0, (unsigned) t.below(5));
         okay(pstm_mul_comba(NULL, &x.v, &y.v, &T.v, paD, paDlen), cs, "mul_comba");
@@ -1170,6 +1336,7 @@ static void op_mont(Tape &t, Ctx &c) {
         T.v.used = (uint16_t) A.size();
     }
     expect(c, &T.v, zt.v, cs, "value before reduce");
+    book_out(c, "montgomery.T", trec, &T.v);
     if (T.v.alloc < k + 1) VF_CHECK(pstm_grow(&T.v, (psSize_t) (k + 1)) == PSTM_OKAY, "harness-init", "grow T");
     rc = pstm_montgomery_reduce(NULL, &T.v, &pm.v, mp, paD, paDlen);
     Case c3 = cs; c3.op = "montgomery_reduce";
@@ -1221,15 +1388,16 @@ static void op_bin(Tape &t, Ctx &c) {
     cs.m = q + (rem ? 1 : 0); cs.edge = zeros > 0 || rem == 0;
     unsigned im = (unsigned) t.below(4);
     cs.extra = fmt("len=%d lead0=%d init=%u", len, zeros, im);
-    P a;
+    P a; OutRec orec;
     if (im == 0) { VF_CHECK(pstm_init_for_read_unsigned_bin(NULL, &a.v, (psSize_t) buf.size()) == PSTM_OKAY, "harness-init", "init_for_read"); a.live = true; }
     else if (im == 1) { VF_CHECK(pstm_init_size(NULL, &a.v, 1) == PSTM_OKAY, "harness-init", "init_size"); a.live = true; }
-    else mk_out(a, t, true);
+    else orec = mk_outv(a, t, true, true, (len + 7) / 8);
     book(c, cs);
     Z want;
     mpz_import(want.v, buf.size(), 1, 1, 1, 0, buf.data());
     okay(pstm_read_unsigned_bin(&a.v, buf.empty() ? (const unsigned char *) "" : buf.data(), (psSize_t) buf.size()), cs, "read_unsigned_bin");
     expect(c, &a.v, want.v, cs, "read_unsigned_bin");
+    book_out(c, "read_unsigned_bin", orec, &a.v);
     size_t bits = mpz_sgn(want.v) ? mpz_sizeinbase(want.v, 2) : 0, bytes = (bits + 7) / 8;
     if (t.below(4) == 0) a.v.sign = a.v.used ? PSTM_NEG : PSTM_ZPOS; // export is of the magnitude
     VF_CHECK(pstm_count_bits(&a.v) == bits, "count_bits-mismatch", "%s: got %u want %zu", descr(cs).c_str(), (unsigned) pstm_count_bits(&a.v), bits);
@@ -1349,11 +1517,11 @@ static void op_radix(Tape &t, Ctx &c) {
     }
     if (cs.sa) mpz_neg(want.v, want.v);
     cs.extra = fmt("radix=%d len=%zu tail=%u", radix, len, tail <= 2 ? tail : 0);
-    P a;
+    P a; OutRec orec;
     unsigned im = (unsigned) t.below(3);
     if (im == 0) { VF_CHECK(pstm_init_for_read_unsigned_bin(NULL, &a.v, (psSize_t) (m * 8 + 8)) == PSTM_OKAY, "harness-init", "init"); a.live = true; }
     else if (im == 1) { VF_CHECK(pstm_init_size(NULL, &a.v, 1) == PSTM_OKAY, "harness-init", "init"); a.live = true; }
-    else mk_out(a, t, true);
+    else orec = mk_outv(a, t, true, true, znd(want.v));
     book(c, cs);
     c.count(fmt("read_radix:radix=%s", radix == 16 ? "16" : radix == 10 ? "10" : radix < 36 ? "lt36" : "ge36"));
     if (t.below(32) == 0) { // "make sure the radix is ok"
@@ -1365,6 +1533,7 @@ static void op_radix(Tape &t, Ctx &c) {
     std::vector<char> in(s.begin(), s.end()); // exact-size heap copy (no terminator): an over-read is seen by ASan
     okay(pstm_read_radix(NULL, &a.v, in.data(), (psSize_t) len, (uint8_t) radix), cs);
     expect(c, &a.v, want.v, cs);
+    book_out(c, cs.op, orec, &a.v);
     poke(t, c, &a.v, cs);
 }
 
@@ -1382,11 +1551,12 @@ static void op_copy(Tape &t, Ctx &c) {
     Z za, want; z_from_mag(za.v, A, cs.sa);
     if (kind <= 2) {
         cs.alias = t.below(6) == 0 ? AL_CA : AL_NONE;
-        P o; pstm_int *po = &a.v;
-        if (cs.alias == AL_NONE) { mk_out(o, t, true); po = &o.v; }
+        P o; pstm_int *po = &a.v; OutRec orec;
+        if (cs.alias == AL_NONE) { orec = mk_outv(o, t, true, true, m); po = &o.v; }
         book(c, cs);
         if (kind == 2) { mpz_abs(want.v, za.v); okay(pstm_abs(&a.v, po), cs); } else { mpz_set(want.v, za.v); okay(pstm_copy(&a.v, po), cs); }
         expect(c, po, want.v, cs);
+        book_out(c, cs.op, orec, po);
         if (po != &a.v) unchanged(c, &a.v, A, cs.sa, cs, "a");
         poke(t, c, po, cs);
     } else if (kind <= 4) {
@@ -1404,11 +1574,13 @@ static void op_copy(Tape &t, Ctx &c) {
         poke(t, c, &o.v, cs);
     } else if (kind == 5) {
         book(c, cs);
-        P o; mk_out(o, t, true);
+        P o; OutRec orec = mk_outv(o, t, true, true, 1);
         bool e; pstm_digit d = pick_digit(t, &e);
         pstm_set(&o.v, d);
         mpz_import(want.v, 1, -1, 8, 0, 0, &d);
         expect(c, &o.v, want.v, cs, "set");
+        book_out(c, "set", orec, &o.v);
+        pstm_exch(&a.v, &a.v); expect(c, &a.v, za.v, cs, "exch(a,a)"); // a variable exchanged with itself is unchanged
         VF_CHECK((pstm_iszero(&o.v) == PS_TRUE) == (d == 0) && (pstm_isodd(&o.v) == PS_TRUE) == ((d & 1) == 1) && (pstm_iseven(&o.v) == PS_TRUE) == (d != 0 && (d & 1) == 0), "set_zero_exch-mismatch", "%s: iszero/isodd/iseven of %llx", descr(cs).c_str(), (unsigned long long) d);
         pstm_exch(&o.v, &a.v);
         expect(c, &o.v, za.v, cs, "exch a"); expect(c, &a.v, want.v, cs, "exch b");
@@ -1492,13 +1664,16 @@ static void prop(Tape &t, Ctx &c) {
     try { prop_inner(t, c); }
     catch (const Fail &f) {
         if (f.sig.compare(0, 7, "harness") == 0) throw;
-        if (f.sig == "invmod-unreduced" || f.sig.compare(0, 13, "stale-digits:") == 0) throw; // these have their own root causes
+        if (f.sig == "invmod-unreduced" || f.sig.compare(0, 13, "stale-digits:") == 0 || f.sig.compare(0, 11, "stale-sign:") == 0) throw; // these have their own root causes
         const char *prim = broken_primitive();
         if (prim && f.sig.compare(0, strlen(prim), prim) != 0) throw Fail{ prim, "[surfaced as " + f.sig + "] " + f.detail };
         throw;
     }
 }
 static void prop_inner(Tape &t, Ctx &c) {
+    Tape sd(t.n > SIDE_OFF ? t.p + SIDE_OFF : t.p, t.n > SIDE_OFF ? t.n - SIDE_OFF : 0);
+    g_side = &sd;
+    g_prev_neg = -1;
     unsigned total = 0;
     for (const OpEntry &e : OPS) total += e.weight;
     unsigned r = (unsigned) t.below(total);
@@ -1507,7 +1682,7 @@ static void prop_inner(Tape &t, Ctx &c) {
         r -= e.weight;
     }
 }
-VF_TARGET("C13.bignum", prop, 1024, 20)
+VF_TARGET("C13.bignum", prop, 1024 + 128, 20) // 1024 bytes operand generators + 128 bytes side tape (SIDE_OFF)
 namespace vf {
 void vf_global_init(int, char **) {
     psCryptoOpen(PSCRYPTO_CONFIG);
